@@ -4,6 +4,7 @@ CONSTANTS
   Txns = {1,2}
   MaxVal = 1
   MaxOps = 7
+  Branchable = FALSE
 VIEW view
 INVARIANTS TypeOK FirstCommitterWins SnapshotStable EventsMatchCommits
 PROPERTIES NoDirtyWrite NotifiedOnlyOnCommit DiscardNoTrace
